@@ -47,7 +47,7 @@ func (C14) Runs(tier string) uint64 {
 	if tier == "thorough" {
 		return 1500000
 	}
-	return 80000
+	return 200000
 }
 
 var inplaceOps = []string{"RewriteRegexConditions", "RewriteDistinct", "RewriteTimeFields", "SetTimeRange", "RewriteMutate", "RewriteExprMutate", "GroupByInterval"}
